@@ -497,7 +497,7 @@ func runSolver(ctx context.Context, sp solverSpec, file string, timeoutS int) So
 // solveRace: stage 1 z3-new with a short budget, stage 2 all solvers in parallel.
 func solveRace(file string, timeoutS int, sem chan struct{}) SolverResult {
 	sem <- struct{}{}
-	short := 3
+	short := 4
 	if timeoutS < short {
 		short = timeoutS
 	}
